@@ -655,7 +655,7 @@ def bytes_newbuffer(I, args, ins):
     ctx = I.ctx
     p = ctx.alloc(I.prog.zero('bytes.Buffer') if 'bytes.Buffer' in I.prog.types else StructV([]), 'bytes.Buffer')
     ctx.ghost.setdefault('buffers', {})[(p.cell, p.path)] = [('bytes', I.slice_elems(args[0]))]
-    ctx.ghost.setdefault('readers', {})[p.cell] = ('bytes', ctx.force(args[0]))
+    ctx.ghost.setdefault('readers', {})[p.cell] = ('buffer', p)
     return p
 
 
@@ -685,7 +685,11 @@ def reader_content(I, r):
         g = ctx.ghost.get('readers', {}).get(r.cell)
         if g is not None:
             if g[0] == 'buffer':
-                return ('string', buffer_string(I, _buf(I, g[1])))
+                parts = _buf(I, g[1])
+                if parts and all(isinstance(x, tuple) and x and x[0] == 'bytes' for x in parts):
+                    elems = [e for x in parts for e in x[1]]
+                    return ('bytes', I.make_slice(elems) if elems else NIL_SLICE)
+                return ('string', buffer_string(I, parts))
             return g
         b = ctx.ghost.get('buffers', {}).get((r.cell, r.path))
         if b is not None:
